@@ -462,6 +462,14 @@ func resolveTracksSizes(context *layoutContext, sizingFunctions [][2]pr.DimOrS, 
 	implicitStart int, direction byte, gap pr.Float,
 	containingBlock bo.Box, orthogonalSizes [][2]pr.Float, orthogonalImplicitStart int,
 ) [][2]pr.Float {
+	// the items, in the order of the tree: the order of a map changes from one run to the next
+	var orderedChildren []Box
+	for _, child := range containingBlock.Box().Children {
+		if _, has := childrenPositions[child]; has {
+			orderedChildren = append(orderedChildren, child)
+		}
+	}
+
 	// TODO: Check that auto box size is 0 for percentages.
 	percentBoxSize := pr.Float(0)
 	if boxSize != pr.AutoF {
@@ -500,7 +508,8 @@ func resolveTracksSizes(context *layoutContext, sizingFunctions [][2]pr.DimOrS, 
 	// TODO: Shim items.
 	// 1.2.2 Size tracks to fit non-spanning items.
 	tracksChildren := make([][]Box, len(tracksSizes))
-	for child, rect := range childrenPositions {
+	for _, child := range orderedChildren {
+		rect := childrenPositions[child]
 		x, y, width, height := rect.unpack()
 		coord, size := y, height
 		if direction == 'x' {
@@ -621,7 +630,8 @@ func resolveTracksSizes(context *layoutContext, sizingFunctions [][2]pr.DimOrS, 
 	for _, span := range spans {
 		tracksChildren := make([][]Box, len(sizingFunctions))
 		i := -1
-		for child, rect := range childrenPositions {
+		for _, child := range orderedChildren {
+			rect := childrenPositions[child]
 			i++
 			x, y, width, height := rect.unpack()
 			coord, size := x, width
@@ -657,7 +667,8 @@ func resolveTracksSizes(context *layoutContext, sizingFunctions [][2]pr.DimOrS, 
 			}
 		}
 		i = -1
-		for child, rect := range childrenPositions {
+		for _, child := range orderedChildren {
+			rect := childrenPositions[child]
 			i++
 			x, y, width, height := rect.unpack()
 			coord, size := x, width
